@@ -275,6 +275,11 @@ func c06GenYAML(r *rand.Rand, c *c06Case) {
 				nk := genc06.C06AddAliasKeys(r, t)
 				c.tags = append(c.tags, fmt.Sprintf("alias_keys:%d", min(nk, 3)))
 			}
+			if r.IntN(2) == 0 { // (after every alias is in place)
+				if nr := genc06.C06RedefineAnchors(r, t); nr > 0 {
+					c.tags = append(c.tags, "anchor_name_redefined")
+				}
+			}
 		}
 		c.tags = append(c.tags, fmt.Sprintf("aliases:%d", min(na, 3)), fmt.Sprintf("merges:%d", min(nm, 3)))
 		docs = []*genc06.YN{t}
